@@ -408,8 +408,15 @@ func init() {
 				val = Iface{T: x.T, V: x.V}
 			}
 		}
-		storeInto(v.Addr, val)
+		e.store(v.Addr, val) // through the store path: read-only, ownership and lockset monitors see it
 		return nil
+	}
+	intrinsics["(reflect.Value).CanSet"] = func(e *Engine, a []Value) Value {
+		v := a[0].(RV)
+		return Bool{V: v.Addr != nil && !v.RO && !v.EmbRO}
+	}
+	intrinsics["(reflect.Value).CanAddr"] = func(e *Engine, a []Value) Value {
+		return Bool{V: a[0].(RV).Addr != nil}
 	}
 	intrinsics["(reflect.Value).Method"] = func(e *Engine, a []Value) Value {
 		v := a[0].(RV)
